@@ -305,6 +305,29 @@ example :
 
 /-! ## Trait definition objects -/
 
+/-- **Values are put back before the object counts as initialised.**  In
+`clone_traits` (hence `copy.deepcopy`) and in `__setstate__` (unpickling,
+`copy.copy`) of the working tree, `_trait_set_inited` is the LAST call made on
+the new object and is made once; so a trait that accepts a value only while the
+object is being set up (`UUID(can_init=True)`, write-once validators that ask
+`traits_inited()`) gets the original's value `v`, whatever it is, and is
+read-only afterwards.  (Translated from the working tree: calling
+`_trait_set_inited` before `copy_traits` breaks it.) -/
+theorem C14_restored_before_inited (v : Nat) :
+    Generated.CopyChains.cloneTraitsCalls.getLast? = some "_trait_set_inited" ∧
+    Generated.CopyChains.setstateCalls.getLast? = some "_trait_set_inited" ∧
+    runSetup initOnly v Generated.CopyChains.cloneTraitsCalls = { inited := true, value := some v } ∧
+    runSetup initOnly v Generated.CopyChains.setstateCalls = { inited := true, value := some v } := by
+  refine ⟨by decide, by decide, rfl, rfl⟩
+
+/-- The model can tell the order: initialised first, nothing is put back; and a trait that rejects every
+assignment (`UUID()`, `ReadOnly(default)`: findings F92 / F93) is never put back, in any order. -/
+example :
+    (runSetup initOnly 7 ["_init_trait_listeners", "_trait_set_inited", "copy_traits"]).value = none ∧
+    (runSetup (fun _ => false) 7 Generated.CopyChains.cloneTraitsCalls).value = none ∧
+    (runSetup (fun _ => false) 7 Generated.CopyChains.setstateCalls).value = none := by
+  decide
+
 open TraitsVerif.Model.FuncIndex TraitsVerif.Lemmas.CTab in
 /-- **CTrait round trip.**  For every trait constructible through the API
 (`CTrait(kind)`, `set_validate`, `delegate`, `property_fields`, `post_setattr`,
